@@ -49,6 +49,10 @@ pub enum MStep {
     Post { op: u16, ok: bool, last: bool, frac: u16 },
     RingPoll,
     Drop { op: u16, cancel: CancelChoice },
+    /// Drop the Ring while operations are in flight (queue handles and the
+    /// descriptor stay alive); afterwards only futures are dropped and the
+    /// kernel posts what it still owes (zero-copy notifications).
+    DropRing,
 }
 
 #[derive(Clone, Debug, Serialize, Deserialize)]
@@ -72,7 +76,45 @@ pub fn strategy() -> impl Strategy<Value = MultiCase> {
         4 => Just(MStep::RingPoll),
         1 => (any::<u16>(), cancel).prop_map(|(op, cancel)| MStep::Drop { op, cancel }),
     ];
-    (1u8..=3, proptest::collection::vec(kind, 1..=4), proptest::collection::vec(step, 0..70)).prop_map(|(sq_log2, ops, multi_steps)| MultiCase { sq_log2, ops, multi_steps })
+    let steps = (proptest::collection::vec(step, 0..70), proptest::option::weighted(0.2, any::<u16>())).prop_map(|(mut steps, ring_drop): (Vec<MStep>, Option<u16>)| {
+        if let Some(at) = ring_drop {
+            let at = pick_index(at, steps.len() + 1);
+            steps.insert(at, MStep::DropRing);
+        }
+        steps
+    });
+    let general = (1u8..=3, proptest::collection::vec(kind, 1..=4), steps).prop_map(|(sq_log2, ops, multi_steps)| MultiCase { sq_log2, ops, multi_steps });
+    // Teardown shape: a zero-copy send whose notification is outstanding when
+    // the Ring is dropped (the one kind of operation that is still running
+    // after that), followed by generated drops/notifications.
+    let cancel2 = prop_oneof![Just(CancelChoice::Wins), Just(CancelChoice::Already)];
+    let tail_step = prop_oneof![
+        3 => (any::<u16>(), cancel2).prop_map(|(op, cancel)| MStep::Drop { op, cancel }),
+        2 => (any::<u16>(), any::<bool>(), any::<u16>()).prop_map(|(op, ok, frac)| MStep::Post { op, ok, last: false, frac }),
+    ];
+    let zc_kind = prop_oneof![(1u16..600).prop_map(|len| MKind::SendZc { len }), (0u16..300, 1u16..300).prop_map(|(a, b)| MKind::SendVecZc { a, b })];
+    let kind2 = prop_oneof![Just(MKind::Accept), (1u16..300).prop_map(|len| MKind::Write { len }), (1u16..600).prop_map(|len| MKind::SendZc { len })];
+    let teardown = (zc_kind, proptest::collection::vec(kind2, 0..=2), any::<bool>(), any::<bool>(), any::<u16>(), proptest::collection::vec(tail_step, 0..8)).prop_map(|(first, rest, drop_before_ring, poll_between, frac, tail)| {
+        let mut ops = vec![first];
+        ops.extend(rest);
+        let mut steps = Vec::new();
+        for k in 0..ops.len() {
+            // Start every operation (queue of 8 entries: room for all).
+            steps.push(MStep::Poll { op: (k as u32 * 65536 / ops.len() as u32) as u16, fresh_waker: false });
+        }
+        steps.push(MStep::RingPoll);
+        steps.push(MStep::Post { op: 0, ok: true, last: false, frac });
+        if poll_between {
+            steps.push(MStep::RingPoll);
+        }
+        if drop_before_ring {
+            steps.push(MStep::Drop { op: 0, cancel: CancelChoice::Already });
+        }
+        steps.push(MStep::DropRing);
+        steps.extend(tail);
+        MultiCase { sq_log2: 3, ops, multi_steps: steps }
+    });
+    prop_oneof![5 => general, 1 => teardown]
 }
 
 enum Fut {
@@ -129,6 +171,7 @@ struct Exec<'c> {
     stop: bool,
     accepted: Vec<a10::AsyncFd>,
     cancel_script: Arc<Mutex<BTreeMap<u64, CancelChoice>>>,
+    ring_gone: bool,
 }
 
 const ERRS: &[i32] = &[libc::EMFILE, libc::ECONNABORTED, libc::ENOMEM, libc::EPIPE, libc::ECONNRESET, libc::ENOBUFS];
@@ -296,7 +339,68 @@ impl<'c> Exec<'c> {
         self.ops[i].fut = Some(fut);
     }
 
+    fn drop_ring(&mut self) {
+        if self.ring_gone {
+            return;
+        }
+        self.sync();
+        let r = {
+            let _s = track::scope(track::TAG_A10);
+            catch(|| self.world.drop_ring())
+        };
+        self.ring_gone = true;
+        self.classes.push("ring-dropped-early");
+        if let Err((msg, loc)) = r {
+            self.fail(self.prop, "panic", format!("dropping the Ring panicked at {loc}: {msg}"));
+            return;
+        }
+        self.sync();
+        if self.ops.iter().any(|o| o.started && !o.final_posted && o.fut.is_some()) {
+            self.classes.push("running-after-ring-drop");
+        }
+        // Everything the Ring's drop consumed is now final for a10.
+        for i in 0..self.ops.len() {
+            if self.ops[i].dropped_running {
+                if self.ops[i].final_consumed {
+                    self.check_reclaimed(i, "after the Ring was dropped and consumed the final completion of the dropped operation");
+                } else if !self.ops[i].final_posted {
+                    self.check_live(i, "by the Ring's drop although the kernel has not posted its final completion");
+                }
+            }
+        }
+    }
+
+    /// Drop a future after the Ring is gone.
+    fn drop_after_ring(&mut self, i: usize) {
+        self.sync();
+        let (_, tail, _) = self.ring_words();
+        let kernel_done = !self.ops[i].started || self.ops[i].final_posted;
+        let fut = self.ops[i].fut.take();
+        let r = {
+            let _s = track::scope(track::TAG_A10);
+            catch(|| drop(fut))
+        };
+        self.ops[i].done = true;
+        if let Err((msg, loc)) = r {
+            self.fail(self.prop, "panic", format!("dropping operation {i} after the Ring panicked at {loc}: {msg}"));
+            return;
+        }
+        let (_, tail_after, _) = self.ring_words();
+        if tail_after != tail {
+            self.fail("C06", "submission-after-ring-drop", format!("dropping operation {i} after the Ring was dropped published {} submissions nobody will submit", tail_after.wrapping_sub(tail)));
+        }
+        self.sync();
+        if !kernel_done {
+            self.classes.push("dropped-after-ring-while-kernel-holds");
+            self.check_live(i, "when its future was dropped after the Ring, although the kernel has not posted the operation's final completion");
+        }
+    }
+
     fn poll(&mut self, raw: u16, fresh_waker: bool) {
+        if self.ring_gone {
+            self.ctx.skipped_steps += 1;
+            return;
+        }
         let c: Vec<usize> = (0..self.ops.len()).filter(|i| self.ops[*i].fut.is_some() && !self.ops[*i].done).collect();
         if c.is_empty() {
             self.ctx.skipped_steps += 1;
@@ -559,7 +663,11 @@ impl<'c> Exec<'c> {
             return;
         }
         let i = c[pick_index(raw, c.len())];
-        self.drop_one(i, cancel);
+        if self.ring_gone {
+            self.drop_after_ring(i);
+        } else {
+            self.drop_one(i, cancel);
+        }
     }
 
     fn drop_one(&mut self, i: usize, cancel: CancelChoice) {
@@ -690,6 +798,10 @@ impl<'c> Exec<'c> {
     }
 
     fn ring_poll(&mut self) {
+        if self.ring_gone {
+            self.ctx.skipped_steps += 1;
+            return;
+        }
         self.sync();
         let before: Vec<(bool, u64)> = self.ops.iter().map(|o| (o.final_consumed, o.waker.wakes())).collect();
         let delivered_before: Vec<usize> = self.ops.iter().map(|o| o.delivered.len()).collect();
@@ -785,7 +897,7 @@ pub fn run(case: &MultiCase, ctx: &mut Ctx, prop: &'static str) -> Vec<&'static 
             posted_count: 0,
         })
         .collect();
-    let mut exec = Exec { world, fd, ops, ctx, prop, events_seen: sim::events_len(), consumed_seqs: BTreeSet::new(), classes: Vec::new(), stop: false, accepted: Vec::new(), cancel_script };
+    let mut exec = Exec { world, fd, ops, ctx, prop, events_seen: sim::events_len(), consumed_seqs: BTreeSet::new(), classes: Vec::new(), stop: false, accepted: Vec::new(), cancel_script, ring_gone: false };
     for i in 0..exec.ops.len() {
         exec.build(i);
     }
@@ -798,12 +910,37 @@ pub fn run(case: &MultiCase, ctx: &mut Ctx, prop: &'static str) -> Vec<&'static 
             MStep::Post { op, ok, last, frac } => exec.post(*op, *ok, *last, *frac),
             MStep::RingPoll => exec.ring_poll(),
             MStep::Drop { op, cancel } => exec.drop_op(*op, *cancel),
+            MStep::DropRing => exec.drop_ring(),
         }
     }
 
     // Wind down: drop every future, let the kernel finish everything, poll
     // until a10 has seen it: nothing may be left.
-    if !exec.stop {
+    if !exec.stop && exec.ring_gone {
+        for i in 0..exec.ops.len() {
+            if exec.ops[i].fut.is_some() && !exec.stop {
+                exec.drop_after_ring(i);
+            }
+        }
+        // The kernel posts what it still owes; only now may memory go.
+        for i in 0..exec.ops.len() {
+            if let Some(serial) = exec.ops[i].serial {
+                let mut s = sim::sim();
+                if let Some(ring) = s.ring(exec.world.ring_fd) {
+                    if ring.req(serial).is_some_and(|r| !r.done) {
+                        let notif = ring.req(serial).is_some_and(|r| r.zc_notif_pending);
+                        if notif {
+                            ring.complete(serial, 0, abi::CQE_F_NOTIF, false);
+                        } else {
+                            ring.complete(serial, -libc::ECANCELED, 0, false);
+                        }
+                    }
+                }
+            }
+        }
+        exec.sync();
+    }
+    if !exec.stop && !exec.ring_gone {
         for i in 0..exec.ops.len() {
             if exec.ops[i].fut.is_some() {
                 exec.drop_one(i, CancelChoice::Wins);
@@ -854,8 +991,10 @@ pub fn run(case: &MultiCase, ctx: &mut Ctx, prop: &'static str) -> Vec<&'static 
         drop(accepted);
     }
     let mut world = world;
-    for _ in 0..3 {
-        let _ = catch(|| world.poll_ring(Some(Duration::ZERO)));
+    if world.ring.is_some() {
+        for _ in 0..3 {
+            let _ = catch(|| world.poll_ring(Some(Duration::ZERO)));
+        }
     }
     {
         let _s = track::scope(track::TAG_A10);
